@@ -1996,3 +1996,35 @@ def m_cartesian_product(I, args, fn, expr):
                 return Tup([deep_copy(state["cur"]), y])
             state["cur"] = None
     return RIter(nxt, "cartesian_product")
+
+
+def _concrete_str(v):
+    v = strip(v)
+    if isinstance(v, StrB):
+        return v.text() if v.is_concrete() else None
+    return v if isinstance(v, str) else None
+
+
+@model("core::str::<impl str>::match_indices", "core::str::<impl str>::char_indices")
+def m_str_match_indices(I, args, fn, expr):
+    s = _concrete_str(args[0])
+    if s is None:
+        raise Abort("%s of a symbolic string" % fn["name"])
+    out = []
+    pos = 0
+    for ch in s:
+        n = len(ch.encode())
+        if fn["name"] == "char_indices":
+            out.append(Tup([pos, Char(ch)]))
+        else:
+            pat = strip(args[1])
+            if isinstance(pat, Char):
+                hit = pat.c == ch
+            elif isinstance(pat, str):
+                raise Abort("match_indices with a string pattern")
+            else:
+                hit = truth(I, I.call_value(args[1], [Char(ch)]), "pattern(%s)" % ch)
+            if hit:
+                out.append(Tup([pos, ch]))
+        pos += n
+    return iter_of(I, RList(out), by_ref=False)
